@@ -1,5 +1,5 @@
 (* Properties/C04.v -- C04: native histogram buckets account for exactly the observations made.
-   Statements only; proofs are in Proofs/C04_keys.v and Proofs/C04_proofs.v.  The boundary table
+   Statements only; proofs are in Proofs/C04_keys.v, C04_proofs.v, C04_law.v, C04_spec.v.  The boundary table
    (Gen/Gen_Bounds.v) is re-translated from prometheus/histogram.go on every run, so the table
    theorems are re-proved against what the code says now.
    Reading guide: Model/NativeHist.v Part 1 is the transcription of the Go code (the MODEL), Part 2
@@ -8,7 +8,8 @@
    run_ghost = the model run paired with G, the observations since the last reset. *)
 From Coq Require Import ZArith List Bool Reals.
 From Flocq Require Import Core.Core IEEE754.BinarySingleNaN.
-From Verif Require Import Base.F64 Model.ClassicHist Model.NativeHist Proofs.C04_keys Proofs.C04_proofs.
+From Verif Require Import Base.F64 Model.ClassicHist Model.NativeHist Proofs.C04_keys Proofs.C04_proofs
+     Proofs.C04_law Proofs.C04_spec.
 Import ListNotations.
 Open Scope Z_scope.
 
@@ -71,16 +72,33 @@ Theorem frexp_range : forall x : f64, is_finite_strict x = true -> (0 < B2R x)%R
   is_fin fr = true /\ fle half fr = true /\ flt fr fone = true /\ (B2R x = B2R fr * bpow radix2 e)%R.
 Proof. exact C04_keys.frexp_range. Qed.
 
-(* key_law_partial (schemas 0..8).  FULL CLAUSE, not proved as one statement:
-     forall s in [-4,8], finite v <> 0, k = key_of s v:  B s (k-1) < |v| <= B s k
-     with B s k = table_s[k mod 2^s] * 2^(k div 2^s + 1) (exact_B), B = 2^(k*2^-s) for s <= 0.
-   PROVED: with |v| = frac * 2^exp (frexp_range), n = 2^s, k = key_frac_exp s frac exp and
-   p = k - (exp-1)*n: 0 <= p <= n is the number of table entries below frac, table[p-1] < frac <=
-   table[p], and the (mod, div) decomposition of k and k-1 is the one that makes
-   B(k-1) = table[p-1]*2^exp (or table[n-1]*2^(exp-1) when p = 0, i.e. frac = 1/2) and
-   B(k) = table[p]*2^exp (or table[0]*2^(exp+1) = 2^exp when p = n).
-   MISSING: the final step from these float/integer facts to the dyadic comparison dy_lt/dy_le of the
-   specification (multiplying both sides by 2^exp); it is exercised by the harness on every case. *)
+(* key_law: for every schema in [-4,8] and every float v other than NaN and +-0, with k = key_of s v
+   (the index histogramCounts.observe computes): B(k-1) < |v| <= B(k) for finite v, where B is the
+   EXACT dyadic boundary of the specification (exact_B: table_s[k mod 2^s] * 2^(k div 2^s + 1) for
+   s > 0, the exact power of two 2^(k*2^-s) for s <= 0; comparison by dy_lt/dy_le on (mantissa,
+   exponent) pairs), and k = max_key s + 1 (the bucket after the one holding MaxFloat64) for +-Inf.
+   All finite values: normal, subnormal, MaxFloat64, every table boundary and its neighbours. *)
+Theorem key_law : forall s v, -4 <= s <= 8 -> is_nan v = false -> feq v pzero = false ->
+  let k := key_of s v in
+  in_bucket s k (exact_B s (k - 1)) (exact_B s k) (fabs v) = true.
+Proof. exact C04_law.key_law_lemma. Qed.
+
+(* ... and no other bucket: the specification's bucket test holds for k iff key_of says k *)
+Theorem key_law_unique : forall s k v, -4 <= s <= 8 -> is_nan v = false -> feq v pzero = false ->
+  in_bucket s k (exact_B s (k - 1)) (exact_B s k) (fabs v) = Z.eqb (key_of s v) k.
+Proof. exact C04_spec.in_bucket_key. Qed.
+
+(* the dyadic comparison of the specification is the order of the reals m * 2^e *)
+Theorem dy_cmp_is_real_order : forall a b : dy, 0 < fst a -> 0 < fst b ->
+  dy_cmp a b = Rcompare (IZR (fst a) * bpow radix2 (snd a)) (IZR (fst b) * bpow radix2 (snd b)).
+Proof. exact C04_law.dy_cmp_correct. Qed.
+
+(* the boundaries strictly increase with the bucket index *)
+Theorem boundaries_increase : forall s k, -4 <= s <= 8 ->
+  (dy_val (exact_B s k) < dy_val (exact_B s (k + 1)))%R.
+Proof. exact C04_spec.exact_B_step. Qed.
+
+(* the table/shift level facts the key law rests on (kept as theorems of their own) *)
 Theorem key_law_table_partial : forall s fr e, 0 <= s <= 8 -> fle half fr = true ->
   let n := 2 ^ s in
   let k := key_frac_exp s fr e in
@@ -120,6 +138,36 @@ Proof. exact C04_proofs.native_accounting_nolimit_lemma. Qed.
 Theorem native_accounting : forall g ops, valid_config g ->
   exists l b, run_ghost (new_hist g) [] ops = Some (l, b) /\ outs_ok g l.
 Proof. exact C04_proofs.native_accounting_lemma. Qed.
+
+(* what native_accounting establishes per Write (out_ok2: the code's own comparisons and key_of)
+   IMPLIES the SPECIFICATION: accounting_check -- zero bucket = #{|v| <= z}, bucket k of either sign
+   = #{B(k-1) < |v| <= B(k)} with exact boundaries, +-Inf after MaxFloat64's bucket, NaN in count and
+   sum only, populations >= 0 with strictly increasing keys, totals + zero count + NaN = count, sum *)
+Theorem out_ok_implies_spec : forall g G w, out_ok2 g G w ->
+  exists x, expo_of_wout w = Some x /\ accounting_check G x = true.
+Proof. exact C04_spec.out_ok_spec_lemma. Qed.
+
+(* the two accounting theorems in the specification's terms *)
+Theorem native_accounting_spec : forall g ops, valid_config g ->
+  exists l b, run_ghost (new_hist g) [] ops = Some (l, b) /\ Forall spec_ok_out l.
+Proof. exact C04_spec.native_accounting_spec_lemma. Qed.
+
+Theorem native_accounting_nolimit_spec : forall g ops, valid_config g -> g_max_buckets g = 0 ->
+  exists l, run_ghost (new_hist g) [] ops = Some (l, true) /\ Forall spec_ok_out l /\ run g ops = Some (map fst l).
+Proof. exact C04_spec.native_accounting_nolimit_spec_lemma. Qed.
+
+(* G is always a suffix of the observations made so far: a reset drops a prefix, nothing else is
+   ever dropped, duplicated or reordered (with count = |G| this makes G the last `count` observations,
+   which is how the correspondence checker reconstructs it) *)
+Theorem ghost_is_suffix : forall ops h G seen l b, is_suffix G seen -> run_ghost h G ops = Some (l, b) ->
+  Forall2 (fun p s => is_suffix (snd p) s) l (firstn (length l) (seen_at_writes seen ops)).
+Proof. exact C04_spec.ghost_suffix_lemma. Qed.
+
+(* the code's classification is the specification's: zero bucket iff |v| <= z; positive side iff
+   not zero-bucket and sign bit clear (for every zero threshold z >= 0, +Inf included) *)
+Theorem zero_bucket_is_abs_le : forall zt v, is_nan zt = false ->
+  goes_zero zt v = negb (is_nan v) && in_zero zt v.
+Proof. exact C04_spec.goes_zero_spec. Qed.
 
 (* the ghost run is the run: when no inexact widening occurred the outputs are those of run *)
 Theorem ghost_run_is_run : forall ops h G l, run_ghost h G ops = Some (l, true) -> run_ops h ops = Some (map fst l).
@@ -197,3 +245,14 @@ Proof. exact C04_proofs.exemplars_latest_lemma. Qed.
 
 Theorem exemplars_switched_off : forall g l e o, g_ex_max g < 0 -> add_exemplar g l e o = l.
 Proof. exact C04_proofs.exemplars_disabled_lemma. Qed.
+
+(* findSmallestKey returns MaxInt32 or a key of the map, and no key of the map is smaller *)
+Theorem smallest_key_is_min : forall m : bmap,
+  (forall p, In p m -> find_smallest_key m <= fst p) /\
+  (find_smallest_key m = max_int32 \/ exists p, In p m /\ find_smallest_key m = fst p).
+Proof. exact C04_spec.smallest_key_lemma. Qed.
+
+(* schema_in_range: pickSchema's switch yields a schema in [-4,8] for every non-NaN value of
+   floor(log2(log2 factor)) (the libm value is an input; every factor > 1 gives a non-NaN one) *)
+Theorem schema_in_range : forall fl : f64, is_nan fl = false -> -4 <= pick_schema_of_floor fl <= 8.
+Proof. exact C04_spec.schema_in_range_lemma. Qed.
